@@ -1070,6 +1070,13 @@ var verifAPI = map[string]intrinsic{
 		t.run.makeLimit[argStr(a[0])] = int64(t.run.concretize(a[1].(*Term), "limit"))
 		return nil
 	},
+	"verifParam": func(t *Thread, a []Value) Value {
+		v, ok := t.run.e.cfg.Params[argStr(a[0])]
+		if !ok {
+			return a[1]
+		}
+		return t.run.e.tt.Const(64, uint64(int64(v)))
+	},
 	"verifCut": func(t *Thread, a []Value) Value {
 		t.run.cuts = append(t.run.cuts, argStr(a[0]))
 		return nil
